@@ -1280,4 +1280,413 @@ theorem point_update_agree (w : World) (n c : Nat) (a : Bool) (o : Oracle) (nd' 
   · right; rw [upd_other _ _ _ _ hm]
 
 
+def AgreeW (w : World) (Ex : Nat → Nat → Prop) : Prop := AgreeEx w.nodes w.sets Ex
+
+theorem forced_alive_other (nd : Node) (t : Typ) (i : Nat) (h : i ≠ t.idx) : (nd.forced t).alive i = nd.alive i := by
+  simp [Node.forced, upd, h]
+theorem forced_alive_self (nd : Node) (t : Typ) : (nd.forced t).alive t.idx = false := by simp [Node.forced]
+theorem forced_alive_false (nd : Node) (t : Typ) (i : Nat) (h : nd.alive i = false) : (nd.forced t).alive i = false := by
+  by_cases hi : i = t.idx
+  · rw [hi]; exact forced_alive_self nd t
+  · rw [forced_alive_other nd t i hi]; exact h
+theorem foldl_forced_alive_false (ts : List Typ) (i : Nat) : ∀ nd : Node, nd.alive i = false →
+    (ts.foldl Node.forced nd).alive i = false := by
+  induction ts with
+  | nil => intro nd h; exact h
+  | cons t ts ih => intro nd h; exact ih _ (forced_alive_false nd t i h)
+theorem avail_alive_other (nd : Node) (t : Typ) (i : Nat) (h : i ≠ t.idx) : (nd.avail t).alive i = nd.alive i := by
+  simp [Node.avail, upd, h]
+theorem avail_alive_self (nd : Node) (t : Typ) : (nd.avail t).alive t.idx = true := by simp [Node.avail]
+theorem counted_alive_other (nd : Node) (t : Typ) (tr : Bool) (i : Nat) (h : i ≠ t.idx) :
+    (nd.counted t tr).alive i = nd.alive i := by
+  simp [Node.counted, upd, h]
+@[simp] theorem clearTraffic_alive (nd : Node) (t : Typ) : (nd.clearTraffic t).alive = nd.alive := rfl
+theorem restoreIdx_alive_other (nd : Node) (s : Snapshot) (idx i : Nat) (h : i ≠ canon idx) :
+    (nd.restoreIdx s idx).alive i = nd.alive i := by
+  simp [Node.restoreIdx, upd, h]
+theorem restoreIdx_alive_self (nd : Node) (s : Snapshot) (idx : Nat) :
+    (nd.restoreIdx s idx).alive (canon idx) = s.alive idx := by simp [Node.restoreIdx]
+
+section agree
+variable (o : Oracle) (Ex : Nat → Nat → Prop)
+
+theorem markForced_agree (w : World) (n : Nat) (t : Typ) (hnd : SetsAll NodupSet w) (h : AgreeW w Ex) :
+    AgreeW (markForced w n t o).1 Ex :=
+  point_update_agree w n t.idx false o _ Ex hnd (forced_alive_self _ t) (fun i hi => forced_alive_other _ t i hi) h
+
+theorem escalateFrom_agree (ts : List Typ) (n : Nat) : ∀ w : World, SetsAll NodupSet w → AgreeW w Ex →
+    AgreeW (escalateFrom ts w n o).1 Ex := by
+  induction ts with
+  | nil => intro w _ h; exact h
+  | cons t ts ih =>
+    intro w hnd h
+    exact ih _ (markForced_pres NodupSet o (nodupSet_stable o) w n t hnd) (markForced_agree o Ex w n t hnd h)
+
+theorem markAvail_agree (w : World) (n : Nat) (t : Typ) (hnd : SetsAll NodupSet w) (h : AgreeW w Ex) :
+    AgreeW (markAvail w n t o).1 Ex :=
+  point_update_agree w n t.idx true o _ Ex hnd (avail_alive_self _ t) (fun i hi => avail_alive_other _ t i hi) h
+
+theorem markAliveFallback_agree (w : World) (n : Nat) (t : Typ) (hnd : SetsAll NodupSet w) (h : AgreeW w Ex) :
+    AgreeW (markAliveFallback w n t o).1 Ex :=
+  point_update_agree w n t.idx true o _ Ex hnd (avail_alive_self _ t) (fun i hi => avail_alive_other _ t i hi) h
+
+theorem restoreIdx_agree (w : World) (n : Nat) (s : Snapshot) (i : Nat) (hnd : SetsAll NodupSet w) (h : AgreeW w Ex) :
+    AgreeW (restoreIdx w n s o i).1 Ex :=
+  point_update_agree w n (canon i) (s.alive i) o _ Ex hnd (restoreIdx_alive_self _ s i)
+    (fun j hj => restoreIdx_alive_other _ s i j hj) h
+
+theorem restoreFrom_agree (is : List Nat) (n : Nat) (s : Snapshot) : ∀ w : World, SetsAll NodupSet w → AgreeW w Ex →
+    AgreeW (restoreFrom is w n s o).1 Ex := by
+  induction is with
+  | nil => intro w _ h; exact h
+  | cons i is ih =>
+    intro w hnd h
+    exact ih _ (restoreIdx_pres NodupSet o (nodupSet_stable o) w n s i hnd) (restoreIdx_agree o Ex w n s i hnd h)
+
+theorem trafficOk_agree (w : World) (n : Nat) (t : Typ) (hnd : SetsAll NodupSet w) (h : AgreeW w Ex) :
+    AgreeW (trafficOk w n t o).1 Ex := by
+  have h1 : AgreeW (w.setNode n ((w.nodes n).clearTraffic t)) Ex := by
+    apply agreeEx_same w.nodes _ w.sets Ex _ h
+    intro m i
+    by_cases hm : m = n
+    · subst hm; simp
+    · simp [upd_other _ _ _ _ hm]
+  unfold trafficOk; simp only; split
+  · exact markAvail_agree o Ex _ n t hnd h1
+  · exact h1
+
+theorem floorOne_agree (w : World) (g : Nat) (fb : Nat → Option Nat) (t : Typ) (hnd : SetsAll NodupSet w)
+    (h : AgreeW w Ex) : AgreeW (floorOne w g fb o t).1 Ex := by
+  unfold floorOne
+  split
+  · exact h
+  · split
+    · exact h
+    · split
+      · exact h
+      · exact markAliveFallback_agree o Ex w _ t hnd h
+
+theorem floorFrom_agree (ts : List Typ) (g : Nat) (fb : Nat → Option Nat) : ∀ w : World, SetsAll NodupSet w →
+    AgreeW w Ex → AgreeW (floorFrom ts w g fb o).1 Ex := by
+  induction ts with
+  | nil => intro w _ h; exact h
+  | cons t ts ih =>
+    intro w hnd h
+    exact ih _ (floorOne_pres NodupSet o (nodupSet_stable o) w g fb t hnd) (floorOne_agree o Ex w g fb t hnd h)
+
+theorem markUnavail_agree (w : World) (n : Nat) (t : Typ) (tr : Bool) (hnd : SetsAll NodupSet w) (h : AgreeW w Ex) :
+    AgreeW (markUnavail w n t tr o).1 Ex := by
+  unfold markUnavail
+  split
+  · exact h
+  · simp only
+    -- after the counter update the pair (n, t.idx) is pending
+    have h1 : AgreeW (w.setNode n ((w.nodes n).counted t tr)) (fun m i => (m = n ∧ i = t.idx) ∨ Ex m i) := by
+      apply agreeEx_update w.nodes _ w.sets Ex n t.idx _ h
+      intro m i
+      by_cases hm : m = n
+      · by_cases hi : i = t.idx
+        · left; exact ⟨hm, hi⟩
+        · right; subst hm; simp [counted_alive_other _ t tr i hi]
+      · right; simp [upd_other _ _ _ _ hm]
+    have hnd1 : SetsAll NodupSet (w.setNode n ((w.nodes n).counted t tr)) := hnd
+    split
+    · rename_i hc
+      split
+      · -- escalation
+        rename_i hr
+        have hrf : AgreeW (recordFailure (w.setNode n ((w.nodes n).counted t tr)) (w.nodes n).addr).1
+            (fun m i => (m = n ∧ i = t.idx) ∨ Ex m i) := by
+          unfold AgreeW; rw [recordFailure_nodes, recordFailure_sets]; exact h1
+        have hndrf : SetsAll NodupSet (recordFailure (w.setNode n ((w.nodes n).counted t tr)) (w.nodes n).addr).1 := by
+          intro s hs; rw [recordFailure_sets] at hs; exact hnd s hs
+        have he := escalateFrom_agree o _ escalationTyps n _ hndrf hrf
+        have hnde := escalateFrom_pres NodupSet o (nodupSet_stable o) escalationTyps _ n hndrf
+        apply notifyAll_agree _ n t.idx _ o Ex _ _ hnde he
+        simp only [escalateFrom_nodes, recordFailure_nodes, setNode_nodes, upd_same]
+        have hdead : ((w.nodes n).counted t tr).alive t.idx = false := by
+          have := hc.1; simp only [Bool.and_eq_true, Bool.not_eq_true'] at this; exact this.2
+        rw [hdead]
+        exact foldl_forced_alive_false _ _ _ hdead
+      · have hrf : AgreeW (recordFailure (w.setNode n ((w.nodes n).counted t tr)) (w.nodes n).addr).1
+            (fun m i => (m = n ∧ i = t.idx) ∨ Ex m i) := by
+          unfold AgreeW; rw [recordFailure_nodes, recordFailure_sets]; exact h1
+        have hndrf : SetsAll NodupSet (recordFailure (w.setNode n ((w.nodes n).counted t tr)) (w.nodes n).addr).1 := by
+          intro s hs; rw [recordFailure_sets] at hs; exact hnd s hs
+        apply notifyAll_agree _ n t.idx _ o Ex _ _ hndrf hrf
+        simp [recordFailure_nodes]
+    · apply notifyAll_agree _ n t.idx _ o Ex _ _ hnd1 h1
+      simp
+
+end agree
+
+
+theorem nodupB_iff (l : List Nat) : nodupB l = true ↔ l.Nodup := by
+  induction l with
+  | nil => simp [nodupB]
+  | cons x xs ih =>
+    simp only [nodupB, Bool.and_eq_true, Bool.not_eq_true', List.nodup_cons, ih]
+    constructor
+    · rintro ⟨h1, h2⟩; exact ⟨by simpa using h1, h2⟩
+    · rintro ⟨h1, h2⟩; exact ⟨by simpa using h1, h2⟩
+
+theorem notifyEach_static (o : Oracle) (alive : Nat → Bool) : ∀ (ds : List Nat) (s : ASet),
+    s.sameStatic (notifyEach s alive o ds).1 := by
+  intro ds
+  induction ds with
+  | nil => intro s; exact sameStatic_refl s
+  | cons d ds ih => intro s; exact sameStatic_trans (notify_static s d _ _) (ih _)
+
+theorem notifyEach_keys (o : Oracle) (alive : Nat → Bool) : ∀ (ds : List Nat) (s : ASet), NodupSet s → ds.Nodup →
+    NodupSet (notifyEach s alive o ds).1 ∧
+    ∀ x, x ∈ keys (notifyEach s alive o ds).1.entries ↔ if x ∈ ds then alive x = true else x ∈ keys s.entries := by
+  intro ds
+  induction ds with
+  | nil => intro s h _; exact ⟨h, fun x => by simp [notifyEach]⟩
+  | cons d ds ih =>
+    intro s h hnd
+    obtain ⟨hd, hds⟩ := List.nodup_cons.mp hnd
+    obtain ⟨k1, k2⟩ := notify_keys s d (alive d) (o.get s.gid s.idx d) h
+    obtain ⟨i1, i2⟩ := ih _ k1 hds
+    refine ⟨i1, fun x => ?_⟩
+    simp only [notifyEach]
+    rw [i2, k2]
+    by_cases hx : x = d
+    · subst hx; simp [hd]
+    · simp [hx]
+
+theorem newSet_spec (w : World) (g ob : Nat) (p : Policy) (tol : Int) (ms : List (Nat × Int)) (o : Oracle) (t : Typ)
+    (hms : (ms.map (·.1)).Nodup) :
+    let s := (newSet w g ob p tol ms o t).1
+    NodupSet s ∧ s.gid = g ∧ s.idx = t.idx ∧ s.members = ms.map (·.1) ∧ s.active = true ∧
+    ∀ m ∈ s.members, AgreeAt w.nodes s m := by
+  simp only [newSet]
+  generalize hs0 : (⟨g, ob, t.idx, p.isMin, tol, ms.map (·.1),
+      (fun d => match ms.find? fun e => e.1 == d with | some e => e.2 | none => 0), false, [], none, hour, true, 0⟩ : ASet) = s0
+  have hs0m : s0.members = ms.map (·.1) := by rw [← hs0]
+  have hs0i : s0.idx = t.idx := by rw [← hs0]
+  have hs0g : s0.gid = g := by rw [← hs0]
+  have hs0e : s0.entries = [] := by rw [← hs0]
+  have hn0 : NodupSet s0 := by unfold NodupSet; rw [hs0e]; simp [keys]
+  obtain ⟨a1, a2⟩ := notifyEach_keys o (fun _ => false) (ms.map (·.1)) s0 hn0 hms
+  have st1 := notifyEach_static o (fun _ => false) (ms.map (·.1)) s0
+  obtain ⟨b1, b2⟩ := notifyEach_keys o (fun d => (w.nodes d).alive t.idx) (ms.map (·.1)) _ a1 hms
+  have st2 := notifyEach_static o (fun d => (w.nodes d).alive t.idx) (ms.map (·.1)) (notifyEach s0 (fun _ => false) o (ms.map (·.1))).1
+  have st := sameStatic_trans st1 st2
+  obtain ⟨sg, _, si, _, _, sm, _, _⟩ := st
+  refine ⟨b1, sg.trans hs0g, si.trans hs0i, sm.trans hs0m, trivial, ?_⟩
+  intro m hm
+  rw [sm, hs0m] at hm
+  show m ∈ keys _ ↔ _
+  simp only
+  rw [b2, si, hs0i]
+  simp [hm]
+
+def Inv (w : World) : Prop := SetsAll NodupSet w ∧ AgreeW w (fun _ _ => False)
+
+theorem newSets_spec (w : World) (g ob : Nat) (p : Policy) (tol : Int) (ms : List (Nat × Int)) (o : Oracle)
+    (hms : (ms.map (·.1)).Nodup) (ts : List Typ) :
+    ∀ s ∈ (newSets w g ob p tol ms o ts).1, NodupSet s ∧ s.gid = g ∧ s.members = ms.map (·.1) ∧
+      ∀ m ∈ s.members, AgreeAt w.nodes s m := by
+  induction ts with
+  | nil => intro s hs; simp [newSets] at hs
+  | cons t ts ih =>
+    intro s hs
+    simp only [newSets, List.mem_cons] at hs
+    rcases hs with rfl | hs
+    · obtain ⟨h1, h2, _, h4, _, h6⟩ := newSet_spec w g ob p tol ms o t hms
+      exact ⟨h1, h2, h4, h6⟩
+    · exact ih s hs
+
+theorem nodeInUse_false (w : World) (n : Nat) (h : w.nodeInUse n = false) : ∀ s ∈ w.sets, n ∉ s.members := by
+  intro s hs hn
+  unfold World.nodeInUse at h
+  rw [List.any_eq_false] at h
+  have := h s hs
+  simp at this
+  exact this hn
+
+theorem step_inv (w : World) (e : Event) (h : Inv w) : Inv (step w e).1 := by
+  obtain ⟨hnd, hag⟩ := h
+  cases e with
+  | node n a =>
+    simp only [step]; split
+    · exact ⟨hnd, hag⟩
+    · rename_i hu
+      refine ⟨hnd, ?_⟩
+      have hu' := nodeInUse_false w n (by simpa using hu)
+      intro s hs hact m hm
+      rcases hag s hs hact m hm with h1 | h1
+      · exact absurd h1 id
+      · right
+        have : m ≠ n := fun hmn => hu' s hs (hmn ▸ hm)
+        unfold AgreeAt at *
+        simp only [setNode_nodes, upd_other _ _ _ _ this]; exact h1
+  | group g ob p tol ms o =>
+    simp only [step]; split
+    · exact ⟨hnd, hag⟩
+    · rename_i hg
+      simp only [Bool.or_eq_true, not_or, Bool.not_eq_true, Bool.not_eq_true'] at hg
+      have hms : (ms.map (·.1)).Nodup := by
+        rw [← nodupB_iff]; have := hg.2; simpa using this
+      simp only [newGroup]
+      constructor
+      · intro s hs
+        simp only [List.mem_append, List.mem_map] at hs
+        rcases hs with hs | ⟨s', hs', rfl⟩
+        · exact hnd s hs
+        · split at hs'
+          · exact (newSets_spec w g ob p tol ms o hms _ s' hs').1
+          · simp at hs'
+      · intro s hs hact m hm
+        simp only [List.mem_append, List.mem_map] at hs
+        rcases hs with hs | ⟨s', hs', rfl⟩
+        · exact hag s hs hact m hm
+        · right
+          split at hs'
+          · exact (newSets_spec w g ob p tol ms o hms _ s' hs').2.2.2 m hm
+          · simp at hs'
+  | close g =>
+    simp only [step]
+    constructor
+    · intro s hs
+      simp only [List.mem_map] at hs
+      obtain ⟨s', hs', rfl⟩ := hs
+      split
+      · exact hnd s' hs'
+      · exact hnd s' hs'
+    · intro s hs hact m hm
+      simp only [List.mem_map] at hs
+      obtain ⟨s', hs', rfl⟩ := hs
+      by_cases hg : s'.gid = g
+      · simp [hg] at hact
+      · simp only [hg, if_false] at hact hm ⊢
+        exact hag s' hs' hact m hm
+  | probe n t a1 a2 o =>
+    simp only [step]; split
+    · exact ⟨markAvail_pres NodupSet o (nodupSet_stable o) _ n t hnd, markAvail_agree o _ _ n t hnd hag⟩
+    · exact ⟨markUnavail_pres NodupSet o (nodupSet_stable o) w n t false hnd, markUnavail_agree o _ w n t false hnd hag⟩
+    · exact ⟨hnd, hag⟩
+  | txn n t ign o =>
+    simp only [step]; split
+    · exact ⟨hnd, hag⟩
+    · exact ⟨markUnavail_pres NodupSet o (nodupSet_stable o) w n t false hnd, markUnavail_agree o _ w n t false hnd hag⟩
+  | tfail n t ign o =>
+    simp only [step]; split
+    · exact ⟨hnd, hag⟩
+    · exact ⟨markUnavail_pres NodupSet o (nodupSet_stable o) w n t true hnd, markUnavail_agree o _ w n t true hnd hag⟩
+  | forced n t o =>
+    exact ⟨markForced_pres NodupSet o (nodupSet_stable o) w n t hnd, markForced_agree o _ w n t hnd hag⟩
+  | tok n t o =>
+    exact ⟨trafficOk_pres NodupSet o (nodupSet_stable o) w n t hnd, trafficOk_agree o _ w n t hnd hag⟩
+  | sbegin => exact ⟨hnd, hag⟩
+  | send =>
+    simp only [step]; split
+    · exact ⟨hnd, hag⟩
+    · split <;> exact ⟨hnd, hag⟩
+  | tick d => exact ⟨hnd, hag⟩
+  | resetGlobal => exact ⟨hnd, hag⟩
+  | inherit n m o =>
+    exact ⟨restoreFrom_pres NodupSet o (nodupSet_stable o) _ w n _ hnd, restoreFrom_agree o _ _ n _ w hnd hag⟩
+  | restore n s o =>
+    exact ⟨restoreFrom_pres NodupSet o (nodupSet_stable o) _ w n s hnd, restoreFrom_agree o _ _ n s w hnd hag⟩
+  | floor g fb o =>
+    exact ⟨floorFrom_pres NodupSet o (nodupSet_stable o) _ w g fb hnd, floorFrom_agree o _ _ g fb w hnd hag⟩
+
+theorem run_inv (es : List Event) : ∀ w : World, Inv w → Inv (run w es).1 := by
+  induction es with
+  | nil => intro w h; exact h
+  | cons e es ih => intro w h; exact ih _ (step_inv w e h)
+
+theorem inv_init : Inv World.init := by
+  constructor
+  · intro s hs; simp [World.init] at hs
+  · intro s hs; simp [World.init] at hs
+
+
+/-! ## transition callbacks fire exactly once per actual transition -/
+
+/-- the alive values reported by `notifyAliveTransition` for node `n`, collection index `i` -/
+def transOf (n i : Nat) (outs : List Out) : List Bool :=
+  outs.filterMap fun
+    | .trans n' t a => if n' = n ∧ t.idx = i then some a else none
+    | _ => none
+
+theorem transOf_append (n i : Nat) (a b : List Out) : transOf n i (a ++ b) = transOf n i a ++ transOf n i b := by
+  simp [transOf, List.filterMap_append]
+
+def NoTrans (outs : List Out) : Prop := ∀ x ∈ outs, ∀ n t a, x ≠ Out.trans n t a
+
+theorem transOf_noTrans (n i : Nat) (outs : List Out) (h : NoTrans outs) : transOf n i outs = [] := by
+  unfold transOf
+  rw [List.filterMap_eq_nil_iff]
+  intro x hx
+  cases x with
+  | trans n' t a => exact absurd rfl (h _ hx n' t a)
+  | group _ _ _ _ => rfl
+  | escalate _ => rfl
+
+theorem notifyOne_noTrans (s : ASet) (n c : Nat) (a : Bool) (o : Oracle) : NoTrans (notifyOne s n c a o).2 := by
+  unfold notifyOne; split
+  · intro x hx; simp only [List.mem_map] at hx; obtain ⟨b, _, rfl⟩ := hx; intro _ _ _ h; cases h
+  · intro x hx; simp at hx
+
+theorem notifyAll_noTrans (sets : List ASet) (n c : Nat) (a : Bool) (o : Oracle) : NoTrans (notifyAll sets n c a o).2 := by
+  induction sets with
+  | nil => intro x hx; simp [notifyAll] at hx
+  | cons s ss ih =>
+    intro x hx
+    simp only [notifyAll, List.mem_append] at hx
+    rcases hx with hx | hx
+    · exact notifyOne_noTrans s n c a o x hx
+    · exact ih x hx
+
+/-- the callbacks for `(n, i)` in `outs`, replayed from the old flag, flip it every time and end at the new flag -/
+def EdgesAt (n i : Nat) (nodes nodes' : Nat → Node) (outs : List Out) : Prop :=
+  replay ((nodes n).alive i) (transOf n i outs) = some ((nodes' n).alive i)
+
+theorem edgesAt_trans (n i : Nat) (a b c : Nat → Node) (o1 o2 : List Out) (h1 : EdgesAt n i a b o1)
+    (h2 : EdgesAt n i b c o2) : EdgesAt n i a c (o1 ++ o2) := by
+  unfold EdgesAt at *
+  rw [transOf_append, replay_append, h1]; exact h2
+
+theorem edgesAt_silent (n i : Nat) (a b : Nat → Node) (outs : List Out) (ho : transOf n i outs = [])
+    (h : (b n).alive i = (a n).alive i) : EdgesAt n i a b outs := by
+  unfold EdgesAt; rw [ho, h]; rfl
+
+/-- a primitive that writes `alive (m, t.idx) := v`, reports a transition iff the flag changed, and
+otherwise only produces group callbacks -/
+theorem edgesAt_point (n i m : Nat) (t : Typ) (v : Bool) (nodes : Nat → Node) (nd' : Node) (g1 g2 : List Out)
+    (hg1 : NoTrans g1) (hg2 : NoTrans g2) (hv : nd'.alive t.idx = v)
+    (hother : ∀ j, j ≠ t.idx → nd'.alive j = (nodes m).alive j) (t' : Typ) (ht' : t'.idx = t.idx) :
+    EdgesAt n i nodes (upd nodes m nd')
+      (g1 ++ (if (nodes m).alive t.idx = v then [] else [Out.trans m t' v]) ++ g2) := by
+  unfold EdgesAt
+  rw [transOf_append, transOf_append, transOf_noTrans n i g1 hg1, transOf_noTrans n i g2 hg2]
+  simp only [List.nil_append, List.append_nil]
+  by_cases hm : n = m
+  · subst hm
+    simp only [upd_same]
+    by_cases hi : i = t.idx
+    · subst hi
+      rw [hv]
+      by_cases hc : (nodes n).alive t.idx = v
+      · simp [hc, transOf, replay]
+      · simp only [hc, if_false, transOf, List.filterMap_cons, ht', and_self, if_true, List.filterMap_nil]
+        simp only [replay]
+        rw [if_neg (fun h => hc h.symm)]
+    · rw [hother i hi]
+      have : transOf n i (if (nodes n).alive t.idx = v then [] else [Out.trans n t' v]) = [] := by
+        split
+        · rfl
+        · simp [transOf, ht', Ne.symm hi]
+      rw [this]; rfl
+  · rw [upd_other _ _ _ _ hm]
+    have : transOf n i (if (nodes m).alive t.idx = v then [] else [Out.trans m t' v]) = [] := by
+      split
+      · rfl
+      · simp [transOf, Ne.symm hm]
+    rw [this]; rfl
+
+
 end DaeVerif.C16
